@@ -86,7 +86,9 @@ pub fn harden_uni(c: &UniCase) -> Vec<(String, UniCase)> {
         out.push(("blocking+1".into(), h));
     }
     // one more interfering task
-    for extra in [ts(5, 0, 1, 4, 1, 1), ts(3, 2, 2, 9, 1, 2)] {
+    // (the third one: a late deadline and a short non-preemptive region — a potential blocker
+    // that must not lower the blocking term of the others)
+    for extra in [ts(5, 0, 1, 4, 1, 1), ts(3, 2, 2, 9, 1, 2), ts(9, 0, 1, 40, 1, 1)] {
         let mut h = c.clone();
         if c.ana.is_fp() {
             h.tasks.insert(0, extra);
@@ -123,6 +125,16 @@ pub fn uni_bases(quick: bool) -> Vec<UniCase> {
                     for (d0, d1) in &dlist {
                         for bb in &bbs {
                             let np0 = if ana == Ana::EdfNp { a.2 } else if matches!(ana, Ana::EdfLp | Ana::EdfFl) { 1.max(a.2 - a.2 / 2) } else { 1 };
+                            if matches!(ana, Ana::EdfLp | Ana::EdfFl) && a.2 > np0 {
+                                // the same system with the other task's longest region = its WCET
+                                v.push(UniCase {
+                                    ana,
+                                    tasks: vec![ts(a.0, a.1, a.2, *d0, 1, a.2), ts(b.0, b.1, b.2, *d1, *last, 1)],
+                                    tua: 1,
+                                    blocking: *bb,
+                                    limit: LIMIT,
+                                });
+                            }
                             v.push(UniCase {
                                 ana,
                                 tasks: vec![ts(a.0, a.1, a.2, *d0, 1, np0), ts(b.0, b.1, b.2, *d1, *last, 1)],
